@@ -15,6 +15,10 @@ fn main() {
         None => Out::stdout(),
     };
     let mut rng = Rng::new(seed);
+    // stepped generators: a step of the implementation that never completes ends the trace with a HANG line
+    if matches!(args[1].as_str(), "cache" | "acache" | "replay-cache") {
+        watch::arm(arg(&args, "--out"), std::time::Duration::from_secs(arg_u64(&args, "--hang-secs", 45)));
+    }
     match args[1].as_str() {
         // C13: rows exhaustively, then TinyLFU lives over the num_counters sweep
         "sketch" => {
@@ -144,7 +148,14 @@ fn main() {
                     "workers_exit" => live::workers_exit((rounds / 5).max(12)),
                     "async_barrier" => live::async_barrier(rounds),
                     "clear_burst" => live::clear_burst((rounds / 10).max(10), false),
-                    "clear_held_ref" => live::clear_held_ref((rounds / 30).max(6)),
+                    "clear_held_ref" => live::clear_held_ref((rounds / 30).max(6), &arg(&args, "--prop").unwrap_or_else(|| "all".to_string())),
+                    "async_clear_ack" => live2::async_clear_ack((rounds / 60).max(4), &arg(&args, "--prop").unwrap_or_else(|| "all".to_string())),
+                    "sweep_refresh_race" => live2::sweep_refresh_race((rounds / 100).max(2), &arg(&args, "--prop").unwrap_or_else(|| "all".to_string())),
+                    "double_clear" => live2::double_clear((rounds / 25).max(8)),
+                    "validator_race" => live2::validator_race((rounds / 15).max(12)),
+                    "metrics_contention" => live2::metrics_contention((rounds / 100).max(3)),
+                    "ring_contention" => live2::ring_contention((rounds / 75).max(4)),
+                    "policy_busy_lookups" => live2::policy_busy_lookups((rounds / 100).max(3)),
                     "tiny_cleanup_interval" => live::tiny_cleanup_interval((rounds / 25).max(12)),
                     "cleanup_interval_honoured" => live::cleanup_interval_honoured((rounds / 150).max(2)),
                     "async_clear_burst" => live::clear_burst((rounds / 10).max(10), true),
